@@ -66,6 +66,26 @@ def check(basis, symbolic, env=None, seed=0):
     p = unitaries.rotate_rho_probs(dm, basis, batch, rho=_c2t(rho)).numpy()
     if not np.allclose(p, np.real(np.diag(want))[order], **tol):
         fails.append(("rotate_rho_probs(explicit rho) != Re diag(U rho U^dagger)", float(np.abs(p - np.real(np.diag(want))[order]).max())))
+    # explicit states whose tensors are not float64 (integer amplitudes, single precision): the exact unitary factors are not
+    # to be narrowed to the state's dtype
+    ipsi = rng.integers(-2, 3, size=(2, D))
+    ipsi[0, 0] = 1
+    ipc = ipsi[0] + 1j * ipsi[1]
+    irho = np.outer(ipc, ipc.conj())
+    for dt, tl in ((torch.int64, dict(rtol=1e-9, atol=1e-9)), (torch.float32, dict(rtol=1e-5, atol=1e-5))):
+        tpsi = torch.tensor(ipsi, dtype=dt)
+        trho = torch.tensor(np.stack([irho.real, irho.imag]), dtype=dt)
+        try:
+            a = _t2c(unitaries.rotate_psi_inner_prod(cw, basis, batch, psi=tpsi).to(torch.double))
+            p = unitaries.rotate_rho_probs(dm, basis, batch, rho=trho).to(torch.double).numpy()
+        except Exception as e:
+            fails.append(("explicit %s state rejected: %r" % (dt, e), None))
+            continue
+        if not np.allclose(a, (Ud @ ipc)[order], **tl):
+            fails.append(("rotate_psi_inner_prod(explicit %s psi) != (U psi)[idx]" % dt, float(np.abs(a - (Ud @ ipc)[order]).max())))
+        wi = np.real(np.diag(Ud @ irho @ Ud.conj().T))[order]
+        if not np.allclose(p, wi, **tl):
+            fails.append(("rotate_rho_probs(explicit %s rho) != Re diag(U rho U^dagger)" % dt, float(np.abs(p - wi).max())))
     # model-derived paths
     C.randomize(cw, rng)
     C.randomize(dm, rng)
